@@ -12,6 +12,7 @@
 // SDK's ReadWriteLogRecord.
 #include <atomic>
 #include <mutex>
+#include <unordered_map>
 #include <thread>
 
 #include "opentelemetry/context/runtime_context.h"
@@ -220,6 +221,10 @@ struct Args
   const otel::common::KeyValueIterable *attrs;
   const otel::common::KeyValueIterable *marker;  // {"vh.marker": n}
   const otel::common::KeyValueIterable *attrs2;  // a second container re-binding some keys of attrs
+  // containers that OWN their strings, passed as such (the API iterates them and stores views)
+  std::map<std::string, std::string> *smap                        = nullptr;
+  std::vector<std::pair<std::string, std::string>> *svec          = nullptr;
+  std::unordered_map<std::string, std::string> *sumap             = nullptr;
   lg::Severity sev2;
   tr::TraceFlags tf2;
   tr::SpanContext ctx = tr::SpanContext::GetInvalid();
@@ -239,6 +244,9 @@ struct Form
   // arguments of one call that write the same field: they apply left to right (last one wins)
   // 0 none, 1 attrs then attrs2, 2 ctx then tf2, 3 tf2 then ctx, 4 sev then sev2
   int overlap = 0;
+  // 1 std::map<string,string>, 2 vector<pair<string,string>>, 3 unordered_map<string,string> passed
+  // directly (only used when every processor exports inside Emit: the container is alive then)
+  int owning = 0;
 };
 
 #define EV(a) lg::EventId((a).ev_id, (a).ev_name)
@@ -287,6 +295,12 @@ const Form kForms[] = {
      [](lg::Logger &l, Args &a) { l.EmitLogRecord(a.tf2, a.ctx, *a.marker, a.body); }, 3},
     {"(S,S2,B,M)", true, true, false, false, false, false, false,
      [](lg::Logger &l, Args &a) { l.EmitLogRecord(a.sev, a.sev2, a.body, *a.marker); }, 4},
+    {"(S,B,map<string,string>,M)", true, true, false, false, false, false, false,
+     [](lg::Logger &l, Args &a) { l.EmitLogRecord(a.sev, a.body, *a.smap, *a.marker); }, 0, 1},
+    {"(vector<pair<string,string>>,M,B)", false, true, false, false, false, false, false,
+     [](lg::Logger &l, Args &a) { l.EmitLogRecord(*a.svec, *a.marker, a.body); }, 0, 2},
+    {"Info(B,unordered_map<string,string>,M)", true, true, false, false, false, false, false,
+     [](lg::Logger &l, Args &a) { l.Info(a.body, *a.sumap, *a.marker); }, 0, 3},
 };
 constexpr size_t kNumForms = sizeof(kForms) / sizeof(kForms[0]);
 
@@ -365,7 +379,10 @@ void do_emit(vh::Reader &rd, Setup &s, ThreadState &ts, int64_t marker, std::vec
   std::string what;
   if (style == 0)
   {
-    const Form &f = kForms[rd.below(kNumForms)];
+    const Form *fp = &kForms[rd.below(kNumForms)];
+    if (fp->owning && s.any_batch)
+      fp = &kForms[0];  // deferred export would outlive the container (and is finding F5 anyway)
+    const Form &f = *fp;
     what          = std::string("Emit") + f.name;
     Args args;
     args.sev  = static_cast<lg::Severity>(sev);
@@ -381,6 +398,28 @@ void do_emit(vh::Reader &rd, Setup &s, ThreadState &ts, int64_t marker, std::vec
     args.attrs2 = &akv2;
     args.sev2   = static_cast<lg::Severity>(1 + (sev % 24));
     args.tf2    = tr::TraceFlags(static_cast<uint8_t>(xctx.trace_flags().flags() ^ 0x01));
+    // string-owning containers with 1..3 entries (values long enough to defeat the small-string buffer
+    // sometimes, so that a view into a destroyed copy points to freed heap memory)
+    std::map<std::string, std::string> smap;
+    std::vector<std::pair<std::string, std::string>> svec;
+    std::unordered_map<std::string, std::string> sumap;
+    if (f.owning)
+    {
+      unsigned n = 1 + rd.below(3);
+      for (unsigned q = 0; q < n; ++q)
+      {
+        std::string k = "own" + std::to_string(q);
+        std::string v = rd.coin() ? "v" + std::to_string(rd.below(100)) : std::string(20 + rd.below(40), static_cast<char>('a' + q)) + std::to_string(q);
+        smap[k]  = v;
+        svec.emplace_back(k, v);
+        sumap[k] = v;
+        e.attrs[k] = sg::MValue(v);
+      }
+      args.smap  = &smap;
+      args.svec  = &svec;
+      args.sumap = &sumap;
+      notes += " " + label + "[string-owning container, " + std::to_string(n) + " entries]";
+    }
     args.attrs   = &akv;
     args.marker  = &mkv;
     args.ctx     = xctx;
